@@ -222,7 +222,11 @@ def check(ctx):
                         f"${letter}$" in t_ and f"({u_})" in t_
                         for u_, t_ in ev)
                     if not ok and ev:
-                        lab = const(ev[0][1])
+                        badu = [(u_, t_) for u_, t_ in ev
+                                if not (f"${letter}$" in t_ and
+                                        f"({u_})" in t_)]
+                        lab = const(f"{badu[0][1]} for length unit "
+                                    f"'{badu[0][0]}'")
             if ok and axis in cond_labels:
                 ctx.ob("C20.1", f_ax, False,
                        f"prepare_axis({m}): the {axis}-axis label is "
@@ -234,7 +238,8 @@ def check(ctx):
                    f"prepare_axis({m}): {axis}-axis labelled ${letter}$ "
                    f"with the configured unit" if ok else
                    f"prepare_axis({m}): {axis}-axis label is {fmt(lab)} — "
-                   f"the data on that axis is coordinate {letter}",
+                   f"the data on that axis is coordinate {letter} in the "
+                   f"configured length unit",
                    key=f"C20.1:label:{m}:{axis}")
         if len(m) == 2 and "z" in labels and \
                 _label_texts(prog, f_ax, pmq, m, "z") == []:
